@@ -347,6 +347,16 @@ func (c *Conn) handleControl(ctx context.Context, h header) (err error) {
 	return err
 }
 
+// failRead closes the connection after a read has failed. The position in the
+// frame stream is lost at that point, a following read would interpret the rest
+// of the failed frame's payload as frames.
+//
+// It must be called with readMu held.
+func (c *Conn) failRead() {
+	c.readMu.unlock()
+	c.close()
+}
+
 func (c *Conn) reader(ctx context.Context) (_ MessageType, _ io.Reader, err error) {
 	defer errd.Wrap(&err, "failed to get reader")
 
@@ -362,6 +372,7 @@ func (c *Conn) reader(ctx context.Context) (_ MessageType, _ io.Reader, err erro
 
 	h, err := c.readLoop(ctx)
 	if err != nil {
+		c.failRead()
 		return 0, nil, err
 	}
 	verifPoint(c, "reader.gotHeader")
@@ -369,6 +380,7 @@ func (c *Conn) reader(ctx context.Context) (_ MessageType, _ io.Reader, err erro
 	if h.opcode == opContinuation {
 		err := errors.New("received continuation frame without text or binary frame")
 		c.writeError(StatusProtocolError, err)
+		c.failRead()
 		return 0, nil, err
 	}
 
@@ -445,6 +457,7 @@ func (mr *msgReader) Read(p []byte) (n int, err error) {
 		return n, io.EOF
 	}
 	if err != nil {
+		mr.c.failRead()
 		return n, fmt.Errorf("failed to read: %w", err)
 	}
 	return n, nil
